@@ -8,6 +8,7 @@ package main
 
 import (
 	"bufio"
+	"encoding/hex"
 	"encoding/json"
 	"fmt"
 	"io"
@@ -47,8 +48,8 @@ type Case struct {
 }
 
 type DepObs struct {
-	Good bool   `json:"good"`          // satisfies the wire format of its handler (wf, computed by the runner)
-	Out  string `json:"out,omitempty"` // poisoned: what the real handler did on it alone: ok err panic skip
+	Good bool   `json:"good"`          // satisfies the wire format of its handler - the runner's copy of wf, used for the statistics only (the judge evaluates the Coq predicates)
+	Out  string `json:"out,omitempty"` // what the real handler did on it alone: ok err panic skip
 	Dest uint8  `json:"dest"`          // destination of the produced message
 }
 
@@ -194,35 +195,62 @@ func coqStatus(s string) string {
 	return "StNew" // missing, pending (reset to failed and retried), failed
 }
 
+// coqItem prints one deposit: handler kind + bytes (the kernel decides whether it is well-formed) + the
+// outcome measured on the real handler + the proposal-store status.
+func coqItem(d Dep, do DepObs) string {
+	kind, data, hr := "KNone", "", ""
+	switch d.Kind {
+	case "erc20":
+		kind, data, hr = "KErc20", d.Data, d.HR
+	case "erc721":
+		kind, data = "KErc721", d.Data
+	case "erc1155":
+		kind, data = "KErc1155", d.Data
+	case "generic":
+		kind, data = "KGeneric", d.Data
+	case "sub":
+		kind, data = "KSub", d.Data
+	case "btc":
+		// the OP_RETURN payload is what follows the two script bytes; an ill-formed or shorter script
+		// is never well-formed
+		if script, err := hex.DecodeString(d.Data); err == nil && len(script) >= 2 {
+			kind, data = "KBtc", hex.EncodeToString(script[2:])
+		}
+	}
+	var meas string
+	switch do.Out {
+	case "ok":
+		meas = "(MOk " + vgen.N(uint64(do.Dest)) + ")"
+	case "err":
+		meas = "MErr"
+	case "panic":
+		meas = "MPanic"
+	default:
+		meas = "MSkip"
+	}
+	return fmt.Sprintf("(mkItem %s %s %s %s %s %s)", kind, vgen.N(uint64(d.Dest)), vgen.Hex(mustUnhex(data)), vgen.Hex(mustUnhex(hr)), meas, coqStatus(d.Status))
+}
+
+func mustUnhex(s string) []byte {
+	b, err := hex.DecodeString(s)
+	if err != nil {
+		return nil
+	}
+	return b
+}
+
 func coq(c Case, o Obs) string {
-	nonce := uint64(0)
 	evs := make([]string, len(c.Events))
 	for i, e := range c.Events {
 		if e.Skip {
-			nonce += uint64(len(e.Deps))
-			evs[i] = "RSkip"
+			evs[i] = "ISkip " + vgen.N(uint64(len(e.Deps)))
 			continue
 		}
 		ds := make([]string, len(e.Deps))
 		for j, d := range e.Deps {
-			nonce++
-			do := o.Deps[i][j]
-			var t string
-			switch {
-			case do.Good:
-				t = "Good " + vgen.Pair(vgen.N(uint64(do.Dest)), vgen.N(nonce))
-			case do.Out == "ok":
-				t = "Bad (Ok " + vgen.Pair(vgen.N(uint64(do.Dest)), vgen.N(nonce)) + ")"
-			case do.Out == "err":
-				t = "Bad Err"
-			case do.Out == "panic":
-				t = "Bad Panic"
-			default:
-				t = "Bad Skip"
-			}
-			ds[j] = vgen.Pair(t, coqStatus(d.Status))
+			ds[j] = coqItem(d, o.Deps[i][j])
 		}
-		evs[i] = "RDeps " + vgen.List(ds)
+		evs[i] = "IDeps " + vgen.List(ds)
 	}
 	return "Case " + c.Path + " " + vgen.List(evs) + " " + vgen.Bool(o.Crashed) + " " + vgen.Bool(o.Failed) + " " +
 		vgen.ListOf(o.Groups, func(g Group) string {
@@ -276,6 +304,7 @@ func main() {
 		Run:       run,
 		Coq:       coq,
 		Kind:      kind,
+		ShardSize: 120,
 		NonTrivial: func(c Case, o Obs) bool {
 			// a range holding at least one poisoned and at least one healthy deposit
 			g, b := false, false
